@@ -3,6 +3,8 @@
 //! (`MidnightZK.Model.C05.Chip`), which must reproduce limb values, limb bounds and verdict.
 use std::cell::RefCell;
 
+use midnight_circuits::ComposableChip;
+
 use ff::Field;
 use midnight_circuits::{
     field::{
@@ -28,7 +30,31 @@ use num_traits::{One, Zero};
 
 use crate::sets::MEP;
 
-pub type NG<F> = NativeGadget<F, P2RDecompositionChip<F>, NativeChip<F>>;
+/// The native gadget of the repository's tests (used for `configure` / table loading).
+pub type NG0<F> = NativeGadget<F, P2RDecompositionChip<F>, NativeChip<F>>;
+/// The native gadget the programs run on: the same `NativeGadget` and `NativeChip`, with the
+/// real decomposition chip behind the transparent logging wrapper `trace::LogDecomp`.
+pub type NG<F> = NativeGadget<F, crate::trace::LogDecomp<F>, NativeChip<F>>;
+
+/// `NG0::new_from_scratch` with the decomposition chip wrapped (same `max_bit_len = 8`).
+/// The second component loads the lookup table of the decomposition chip in use (the table
+/// holds the tags that chip queried).
+pub fn new_ng<F: CircuitField>(config: &P2RDecompositionConfig) -> (NG<F>, Loader<F>) {
+    let native_chip = NG0::<F>::new_from_scratch(config).native_chip;
+    let decomp = P2RDecompositionChip::<F>::new(config, &8);
+    (NativeGadget::new(crate::trace::LogDecomp { inner: decomp.clone() }, native_chip), Loader { decomp })
+}
+
+pub struct Loader<F: CircuitField> {
+    decomp: P2RDecompositionChip<F>,
+}
+
+impl<F: CircuitField> Loader<F> {
+    /// `NativeGadget::load_from_scratch` (the native chip has nothing to load).
+    pub fn load_from_scratch(&self, layouter: &mut impl Layouter<F>) -> Result<(), Error> {
+        self.decomp.load(layouter)
+    }
+}
 pub type Chip<F, K> = FieldChip<F, K, MEP, NG<F>>;
 pub type AF<F, K> = AssignedField<F, K, MEP>;
 
@@ -374,7 +400,7 @@ where
         let instance_column = meta.instance_column();
         let constants_column = meta.fixed_column();
         meta.enable_constant(constants_column);
-        let ng = NG::<F>::configure_from_scratch(meta, &[committed_instance_column, instance_column]);
+        let ng = NG0::<F>::configure_from_scratch(meta, &[committed_instance_column, instance_column]);
         let advice_cols = (0..nb_field_chip_columns::<F, K, MEP>())
             .map(|_| meta.advice_column())
             .collect::<Vec<_>>();
@@ -383,11 +409,13 @@ where
     }
 
     fn synthesize(&self, config: Self::Config, mut layouter: impl Layouter<F>) -> Result<(), Error> {
-        let ng = NG::<F>::new_from_scratch(&config.ng);
+        let (ng, ng0) = new_ng::<F>(&config.ng);
         let chip = Chip::<F, K>::new(&config.fc, &ng);
+        crate::trace::reset();
         let mut vars: Vec<Var<F, K>> = vec![];
         let mut out = Outcome::default();
-        for o in &self.ops {
+        for (oi, o) in self.ops.iter().enumerate() {
+            crate::trace::set_op(oi);
             out.adv_marks.push(midnight_proofs::circuit::verif_hooks::counter::<F>());
             let r = mzkh::catch(|| Self::step(&chip, &ng, &mut layouter, &vars, o, &mut out.nb_public));
             match r {
@@ -417,7 +445,8 @@ where
             // an op failed (possibly inside a region): the layouter cannot be used any more
             return Err(Error::Synthesis("program stopped".into()));
         }
-        ng.load_from_scratch(&mut layouter)
+        crate::trace::set_op(self.ops.len());
+        ng0.load_from_scratch(&mut layouter)
     }
 }
 
